@@ -55,15 +55,20 @@ def run_history(ctx, ask, rng, exhaustive_objs=None, cfg=None):
         L = rng.randrange(0, 61) if rng.random() < 0.7 else rng.randrange(0, 8)
         vmax = rng.choice([3, 7, 7, 15])
         lattice = rng.random() < 0.7
+        tenths = rng.random() < 0.35
+        if rng.random() < 0.1:
+            vmax = rng.choice([94, 100, 127])          # wide integer ranges: the cell arithmetic is exact only for small ones
         p = mk_problem(n, dirs, constrained)
         sols = []
         for _ in range(L):
-            if lattice:
+            if lattice and tenths:
+                objs = [rng.randrange(0, vmax + 1) / 10.0 for _ in range(n)]     # decimal fractions: values that sit on cell boundaries up to rounding
+            elif lattice:
                 objs = [float(rng.randrange(0, vmax + 1)) for _ in range(n)]
             else:
                 objs = [rng.uniform(0, 1) if rng.random() < 0.9 else rng.choice([0.0, 1.0, 0.5]) for _ in range(n)]
             if n >= 2 and rng.random() < 0.5:      # bias towards trade-off fronts so that the archive fills up
-                objs[1] = float(vmax - objs[0]) + rng.choice([0, 0, 1, -1]) if lattice else 1 - objs[0] + rng.uniform(-.1, .1)
+                objs[1] = ((vmax / 10.0 - objs[0]) if tenths else float(vmax - objs[0]) + rng.choice([0, 0, 1, -1])) if lattice else 1 - objs[0] + rng.uniform(-.1, .1)
             if sols and rng.random() < 0.07:
                 sols.append(rng.choice(sols))          # the same solution object offered again (it may be a current member)
             else:
@@ -159,7 +164,7 @@ def run(ctx, drv):
     ctx.nontrivial_rule = ("insertion histories (<= 60) into AdaptiveGridArchive over 2-3 objectives on lattices 0..3/7/15 (70%) or random "
                            "doubles, capacity 1-6, divisions 1-4, mixed directions; exhaustive: all histories of length <= L over a 4x4 "
                            "lattice with capacity 2-3, divisions 2. non-trivial = history with a rejection, an eviction and an overflow; "
-                           "distinct by (config, history)")
+                           "distinct by (config, history) + re-offers of the same object, decimal-fraction and wide integer lattices; survival functions on merged populations with duplicated objective vectors return exactly min(N, n) members")
     reqs, post = [], []
 
     def ask(line, fn):
